@@ -81,7 +81,29 @@ def run(ctx):
     res.append(rule_fieldutf8(facts))
     res.append(rule_clear(facts))
     res.append(rule_infer(facts))
+    res.append(rule_hdr(facts))
     return res
+
+
+def rule_hdr(facts):
+    """Header detection declares the first record a header when one of its fields is not valid for the column's inferred type. An empty
+    field is a NULL and valid for every type; treating it as invalid eats the first data row of a headerless file whose first row has a
+    NULL. Decided: CandidateType::is_valid tests for the empty string before it consults a parser."""
+    r = RuleResult("C17-HDR", "CandidateType::is_valid accepts the empty field before consulting any type parser", floor=1)
+    rec = facts.fn("glaredb_ext_csv::schema::CandidateType::is_valid")
+    if rec is None:
+        r.missing_anchor("glaredb_ext_csv::schema::CandidateType::is_valid")
+        return r
+    fn = Fn(rec)
+    r.functions.add(fn.id)
+    empties = [c for c in fn.calls() if c.name.endswith("str>::is_empty") or c.name.endswith("::is_empty")]
+    parsers = [c for c in fn.calls() if c.name.endswith("Parser>::parse") or c.name.endswith("::parse")]
+    ok = bool(empties) and all(any(fn.dominates(e.bb, p_.bb) for e in empties) for p_ in parsers)
+    r.inst({"fn": fn.id, "is_empty_checks": len(empties), "parser_calls": len(parsers), "empty_checked_first": ok}, ok)
+    if not ok:
+        r.violate(fn.id, "empty-field-invalid", "is_valid hands the empty field to the type parsers (which reject it): a headerless file whose first row contains an empty field "
+                  "loses that row to header detection", rec["file"], rec["line"])
+    return r
 
 
 # value sets accepted by the candidate types' parsers: A ⊆ B
